@@ -77,7 +77,7 @@ def _fl(v):
     return [round(float(x), 6) for x in v]
 
 
-def blocks(ck, sh, mm, gname, nmul):
+def blocks(ck, sh, mm, gname, nmul, twice=False):
     M = sh.mininec
     T = psistub.AtomTable()
     pc.install(M, T)
@@ -85,6 +85,9 @@ def blocks(ck, sh, mm, gname, nmul):
     def fn():
         c = symx.ctx()
         mg = pc.fill(M, catalogue.build(M, gname, nmul=nmul))
+        if twice:
+            # the same object solved again (a sweep step, a repeated compute): image theory must hold every time
+            mg = pc.fill(M, mg)
         mf = pc.fill(M, free_space_pair(M, gname, nmul))
         try:
             mo, mi = maps(mg, mf)
@@ -113,8 +116,8 @@ def blocks(ck, sh, mm, gname, nmul):
         return [('Z_G[%d][%d] = free-space block sum' % (p, q), pc.close_goal(a, b)) for p, q, a, b in o['ents']]
 
     def replay(conc, gn, out):
-        return replay_sentence(mm, gname, nmul)
-    prove_paths(ck, 'blocks-%s-x%d' % (gname, nmul), fn, goals, replay, max_paths=2,
+        return replay_sentence(mm, gname, nmul, twice=twice)
+    prove_paths(ck, 'blocks-%s-x%d%s' % (gname, nmul, '-second-compute' if twice else ''), fn, goals, replay, max_paths=2,
                 timeout_ms=20000 if ck.tier == 'quick' else 120000, twin_timeout_ms=20000)
     ck.bounds.setdefault('blocks', []).append('%s x%d: %d integral atoms' % (gname, nmul, len(T.atoms)))
 
@@ -148,7 +151,7 @@ def _maps_by_position(mg, mf):
     return mo, mi
 
 
-def _solve_pair(mm, gname, nmul, feed, V=1 + 0.5j):
+def _solve_pair(mm, gname, nmul, feed, V=1 + 0.5j, twice=False):
     mg = catalogue.build(mm, gname, nmul=nmul)
     mf = free_space_pair(mm, gname, nmul)
     try:
@@ -167,16 +170,18 @@ def _solve_pair(mm, gname, nmul, feed, V=1 + 0.5j):
         qb, sb = mi[feed]
         mf.register_source(mm.Excitation(V * sb), qb)
     mg.compute()
+    if twice:
+        mg.compute()
     mf.compute()
     return mg, mf, mo, mi
 
 
-def replay_sentence(mm, gname, nmul, feeds=None):
+def replay_sentence(mm, gname, nmul, feeds=None, twice=False):
     """currents / impedances / gain of ground model vs free-space pair, feed on every pulse."""
     zen, azi = mm.Angle(5.0, 20.0, 5), mm.Angle(0.0, 45.0, 8)
     mg0 = catalogue.build(mm, gname, nmul=nmul)
     for feed in (range(len(mg0.pulses)) if feeds is None else feeds):
-        mg, mf, mo, mi = _solve_pair(mm, gname, nmul, feed)
+        mg, mf, mo, mi = _solve_pair(mm, gname, nmul, feed, twice=twice)
         cond = np.linalg.cond(np.asarray(mf.Z, dtype=complex))
         if cond > 1e5:
             continue
@@ -427,11 +432,13 @@ def main(args):
     ck.shadow_stats = symx.load().stats
     if ck.tier == 'quick':
         parts = [('blocks', (g, 1)) for g in ('G7', 'G8', 'G9', 'G10', 'G14', 'G16')]
+        parts += [('blocks', (g, 1, True)) for g in ('G8', 'G16')]
         parts += [('rhs_loads', (g,)) for g in ('G8', 'G9')]
         parts += [('two_sources', (g,)) for g in ('G8', 'G9')]
         parts += [('far', (g,)) for g in ('G8', 'G9', 'G14')]
     else:
         parts = [('blocks', (g, 2)) for g in ('G7', 'G8', 'G9', 'G10', 'G14', 'G15', 'G16')]
+        parts += [('blocks', (g, 1, True)) for g in ('G7', 'G8', 'G9', 'G15', 'G16')]
         parts += [('rhs_loads', (g,)) for g in ('G7', 'G8', 'G9', 'G10', 'G14', 'G16')]
         parts += [('two_sources', (g,)) for g in ('G7', 'G8', 'G9', 'G10', 'G16')]
         parts += [('far', (g,)) for g in ('G7', 'G8', 'G9', 'G10', 'G14', 'G15', 'G16')]
